@@ -435,10 +435,10 @@ def sample_view(spec):
 
 
 PARTS = {
-    "refmodel": {"strategy": spec_one, "check": check_refmodel, "examples": {"quick": 2400, "thorough": 40000}, "sample": sample_view},
-    "rigid": {"strategy": spec_rigid, "check": check_rigid, "examples": {"quick": 1600, "thorough": 30000}, "sample": sample_view},
-    "lattice": {"strategy": spec_lattice, "check": check_lattice, "examples": {"quick": 1200, "thorough": 20000}, "sample": sample_view},
-    "permdup": {"strategy": spec_permdup, "check": check_permdup, "examples": {"quick": 1200, "thorough": 20000}, "sample": sample_view},
-    "qsign": {"strategy": spec_qsign, "check": check_qsign, "examples": {"quick": 400, "thorough": 6000}, "sample": sample_view},
-    "lsq": {"strategy": spec_lsq, "check": check_lsq, "examples": {"quick": 400, "thorough": 6000}, "sample": sample_view},
+    "refmodel": {"strategy": spec_one, "check": check_refmodel, "examples": {"quick": 4800, "thorough": 40000}, "sample": sample_view},
+    "rigid": {"strategy": spec_rigid, "check": check_rigid, "examples": {"quick": 3200, "thorough": 30000}, "sample": sample_view},
+    "lattice": {"strategy": spec_lattice, "check": check_lattice, "examples": {"quick": 2400, "thorough": 20000}, "sample": sample_view},
+    "permdup": {"strategy": spec_permdup, "check": check_permdup, "examples": {"quick": 2400, "thorough": 20000}, "sample": sample_view},
+    "qsign": {"strategy": spec_qsign, "check": check_qsign, "examples": {"quick": 800, "thorough": 6000}, "sample": sample_view},
+    "lsq": {"strategy": spec_lsq, "check": check_lsq, "examples": {"quick": 800, "thorough": 6000}, "sample": sample_view},
 }
